@@ -11,7 +11,7 @@ fn any_bits(max: u32) -> u32 {
     b
 }
 
-// @harness mpqs_interval_size unit=mpqs::mpqs_interval_size props=C20
+// @harness mpqs_interval_size unit=mpqs::mpqs_interval_size props=C20,C03
 #[kani::proof]
 #[kani::stub(bnum::BUint::bits, stub_bits)]
 fn mpqs_interval_size_ok() {
@@ -21,7 +21,7 @@ fn mpqs_interval_size_ok() {
     assert!(s > 0 && s % (sieve::BLOCK_SIZE as i64) == 0 && s <= 1024 * 32768);
 }
 
-// @harness mpqs_large_prime_factor unit=mpqs::large_prime_factor props=C20
+// @harness mpqs_large_prime_factor unit=mpqs::large_prime_factor props=C20,C03
 #[kani::proof]
 #[kani::stub(bnum::BUint::bits, stub_bits)]
 fn mpqs_large_prime_factor_ok() {
@@ -31,7 +31,7 @@ fn mpqs_large_prime_factor_ok() {
     assert!(f >= 1 && f <= 512);
 }
 
-// @harness mpqs_double_large_factor unit=mpqs::double_large_factor props=C20
+// @harness mpqs_double_large_factor unit=mpqs::double_large_factor props=C20,C03
 #[kani::proof]
 #[kani::stub(bnum::BUint::bits, stub_bits)]
 fn mpqs_double_large_factor_ok() {
